@@ -204,6 +204,9 @@ fn handle_service_error(
         .track_service_result(failed_value, tetraplet, argument_hash)?;
 
     exec_ctx.record_call_cid(&peer_id, &service_result_agg_cid);
+    // a failed call leaves its subgraph incomplete, exactly as the replay of this
+    // Failed state from data does in handle_prev_state
+    exec_ctx.make_subgraph_incomplete();
     trace_ctx.meet_call_end(Failed(service_result_agg_cid));
 
     Err(error.into())
@@ -232,6 +235,7 @@ fn try_to_service_result(
                     .track_service_result(failed_value, tetraplet.clone(), argument_hash.clone())?;
             // the failed state goes to the trace, so its CID has to be signed by the current peer
             exec_ctx.record_call_cid(&tetraplet.peer_pk, &service_result_agg_cid);
+            exec_ctx.make_subgraph_incomplete();
             let error = CallResult::failed(service_result_agg_cid);
 
             trace_ctx.meet_call_end(error);
